@@ -63,6 +63,7 @@ struct Plan : sim::PlanBase {
   long clock_jump_step = -1;          // at this simulated step every clock jumps by clock_jump
   long clock_jump = 0;
   long alloc_stride = 0;              // > 0: every alloc_stride-th C++ allocation inside the xtp code is a decision point
+  int enum_full_below = 160;          // enumeration: rewrites of at most this many bytes are cut at EVERY byte offset
   bool enumerate = false;             // thorough: enumerate a kill at every crash point along this plan's schedule
 };
 
@@ -164,6 +165,7 @@ struct World : simio::Env {
     if (F == path) return simio::FILE_F;
     if (FB == path) return simio::FILE_BACKUP;
     if (L == path) return simio::FILE_LOCK;
+    if (strncmp(path, dir.c_str(), dir.size()) == 0 && path[dir.size()] == '/') return simio::FILE_OTHER;  // e.g. a temporary file next to the job file
     return simio::FILE_NONE;
   }
   long clock(int sproc) override {
@@ -242,8 +244,14 @@ struct World : simio::Env {
   void file_event(int sproc, int fileid, const char *op, long bytes) override {
     int proc = sproc - 1;
     if (fileid == simio::FILE_LOCK) return;
+    if (fileid == simio::FILE_OTHER) {  // no bookkeeping of its own, but the job file may just have been replaced (rename)
+      if (strcmp(op, "rename") != 0 && strcmp(op, "unlink") != 0) return;
+      fileid = simio::FILE_F;
+      proc = -1;  // not a rewrite of the job file by truncation
+    }
     if (fileid == simio::FILE_BACKUP && strcmp(op, "open-truncate") == 0) sim::set_phase(PH_BACKUP);
     if (fileid == simio::FILE_F && strcmp(op, "open-truncate") == 0) sim::set_phase(PH_WRITE);
+    if (strcmp(op, "rename") == 0 || strcmp(op, "unlink") == 0) proc = -1;
     if (strcmp(op, "open-truncate") == 0 && proc >= 0) rewrite_begins(proc, fileid);
     else if (proc >= 0 && bytes > 0) { rewrite_bytes[fileid][proc] += bytes; if (!rewrite_sizes[fileid][proc].empty()) rewrite_sizes[fileid][proc].back() += bytes; }
     if (strcmp(op, "open-read") == 0 || (strcmp(op, "close") == 0)) return;  // content unchanged
@@ -256,7 +264,7 @@ struct World : simio::Env {
     if (!okF) okB = simio::raw_read_file(FB, c) && scan_jobs(c, recs) && ids_complete(recs);
     counters["check.integrity_scans"]++;
     if (!okF && !okB) {
-      sim::abort_run("no-complete-copy", std::string("after ") + op + " on " + (fileid == simio::FILE_F ? "the job file" : "the backup") + " by p" + std::to_string(proc) +
+      sim::abort_run("no-complete-copy", std::string("after ") + op + " on " + (fileid == simio::FILE_F ? "the job file" : "the backup") + " by p" + std::to_string(sproc - 1) +
                                              " neither the job file nor its backup is a complete job list");
     }
   }
@@ -719,6 +727,8 @@ struct Jobs {
       e.eval_max = (int)r.below(3);
       e.fault_seed = p.fault_seed;
       e.enumerate = true;
+      // every second enumerated plan of the thorough tier cuts every rewrite at every single byte
+      if (index % 2 == 1 && e.J <= 2) e.enum_full_below = 2000;
       return e;
     }
     return p;
@@ -745,7 +755,7 @@ struct Jobs {
     }
     v.set("kills", ks);
     v.set("short_write", p.short_write).set("short_read", p.short_read).set("fail_rate", p.fail_rate).set("fail_with_output", p.fail_with_output)
-     .set("eval_max", p.eval_max).set("fault_seed", (long long)p.fault_seed).set("clock_jump_step", p.clock_jump_step).set("clock_jump", p.clock_jump).set("enumerate", p.enumerate).set("alloc_stride", p.alloc_stride);
+     .set("eval_max", p.eval_max).set("fault_seed", (long long)p.fault_seed).set("clock_jump_step", p.clock_jump_step).set("clock_jump", p.clock_jump).set("enumerate", p.enumerate).set("enum_full_below", p.enum_full_below).set("alloc_stride", p.alloc_stride);
     return v;
   }
   static Plan from_json(const js::Value &v) {
@@ -771,6 +781,7 @@ struct Jobs {
     p.clock_jump = (long)v.num("clock_jump", 0);
     p.enumerate = v.has("enumerate") && v.at("enumerate").b;
     p.alloc_stride = (long)v.num("alloc_stride", 0);
+    p.enum_full_below = (int)v.num("enum_full_below", 160);
     return p;
   }
 
@@ -938,7 +949,7 @@ struct Jobs {
             sim::kill_process(sp);
           }
         };
-        if (kind == sim::K_WRITE) return;  // handled inside the write itself (partial effect)
+        if (kind == sim::K_WRITE && obj != simio::FILE_OTHER) return;  // job file / backup: handled inside the write itself (partial effect)
         hit(KA_ANY);
         if (kind == sim::K_FOPEN) hit(KA_FOPEN);
         else if (kind == sim::K_FCLOSE) hit(KA_FCLOSE);
@@ -1008,7 +1019,7 @@ struct Jobs {
         for (size_t rw = 0; rw < sizes.size(); rw++) {
           long B = sizes[rw];
           std::vector<long> offs;
-          if (B <= 160) for (long o = 0; o <= B; o++) offs.push_back(o);
+          if (B <= plan.enum_full_below) for (long o = 0; o <= B; o++) offs.push_back(o);
           else { for (long o = 0; o <= B; o += 23) offs.push_back(o); offs.push_back(1); offs.push_back(B / 2); offs.push_back(B - 1); offs.push_back(B); }
           for (long o : offs) {
             KillSpec k; k.proc = (int)q; k.at = KA_WRITE; k.nth = (int)rw + 1; k.file = f; k.abs_bytes = o;
